@@ -159,12 +159,15 @@ func (p Precompile) RegisterToken(
 		StakingTotalAmount: sdkmath.NewInt(0),
 	}
 
-	if err := p.assetsKeeper.RegisterNewTokenAndSetTokenFeeder(ctx, &oInfo); err != nil {
+	// this is where the magic happens
+	// the asset is stored first: its validation can still fail, and a failure must not
+	// leave the token and its feeder behind in the oracle's in-memory parameter cache,
+	// which (unlike the stores) is not reverted and is committed at the end of the block
+	if err := p.assetsKeeper.SetStakingAssetInfo(ctx, stakingAsset); err != nil {
 		return nil, err
 	}
 
-	// this is where the magic happens
-	if err := p.assetsKeeper.SetStakingAssetInfo(ctx, stakingAsset); err != nil {
+	if err := p.assetsKeeper.RegisterNewTokenAndSetTokenFeeder(ctx, &oInfo); err != nil {
 		return nil, err
 	}
 
